@@ -33,7 +33,7 @@ def check(run):
     hs += hr
     # every third script runs "dynamic": subscriptions made after each topic was published once, one removed before a last publish
     # round 8: four in seven scripts use topic names with a level that starts with '$' below the first level, subscribed through + or #
-    scns = [inboundlib.scenario(h, [1, 2, 3], dynamic=(i % 3 == 2), empty=(i % 4 == 1), shape=[0, 1, 2, 3, 0, 1, 3][i % 7]) for i, h in enumerate(hs)]
+    scns = [inboundlib.scenario(h, [1, 2, 3], dynamic=(i % 3 == 2), empty=(i % 4 == 1), shape=[0, 1, 2, 3, 4, 1, 4][i % 7]) for i, h in enumerate(hs)]
     run.log("%d distribution scripts from TLC" % len(scns))
     tpath, crashes = brokerlib.execute(run, scns, "c14", shards=12)
     if crashes:
